@@ -58,6 +58,13 @@ claim('C12',
       'Streams of 1-3 documents are pushed through the real dump_all / serialize_all / emit and read back with load_all / compose_all / parse, with everything that decides a document boundary as a solver variable: the kind of each root (16 value kinds incl. empty and open-ended plain scalars, keep-chomped block text, ---/... look-alikes, empty and one-element collections, None, a str of one free character over all code points; 8 node kinds incl. the empty null scalar; 8 event kinds), the explicit start/end flags (per document at event level), %YAML / %TAG, default_style, canonical, line_break. Exactly n equal documents must come back, and the text of the first document must be a prefix of the stream whatever follows.',
       'Py leg only. Values are compared for dump_all, node graphs for serialize_all, events for emit. Fixed finding F5 (empty root scalar with an implicit tag lost its document start marker) was found here.')
 
+claim('C15',
+      'The raw output of the real emitter is inspected on symbolic inputs: a str of one free character over all code points (and 2-3 character strings over the class alphabet) in root / key / value contexts under every default_style, both allow_unicode settings, the four line breaks and width {5,80}: every output character is printable ASCII or a line break unless allow_unicode, every CR/LF run is the requested break, the library\'s own Reader accepts the text. Option normalisation is decided for ALL integers (indent and width are unbounded solver ints). Directives and markers are counted for every document of 2-document streams over explicit_start/end x version x tags x canonical; block entry lines are checked against the effective indent for indent 0..11; canonical output is fed to the repository\'s independent canonical parser; the encoding / BOM rules are checked on a value table.',
+      'Py leg only. encoding= is exercised on picked values (io.BytesIO is C). Trusted: CrossHair/z3, M2/M4e models, tests/legacy_tests/canonical.py as the independent canonical parser.')
+claim('C16',
+      'Relational checks with the order as a solver variable: dicts and sets of 2-3 keys from 8 key pools (ints, strs, int/float and bool/int mixes, negative floats, dates, numeric-looking strs, tuples) are built in every pair of insertion orders (a set\'s iteration order is an explicit permutation) and must dump to the same text with sort_keys, nested or not; without sort_keys the insertion order must survive dump and load; dump(load(dump(x))) == dump(x) over a 24-value table (shared dates, shared and recursive containers, look-alike strings) x 5 styles x 3 flow styles x canonical x sort_keys; anchor names over list/dict graphs with symbolic child pointers, dumped twice from different object identities.',
+      'Py leg only. Separate interpreters with different PYTHONHASHSEED are not run: hash randomisation only changes iteration order, which is quantified over explicitly (M6). Anchor ids are handed out at the second encounter of a node, so their textual order is not checked, only that they are id001..idN per document and a function of the graph.')
+
 NA = {
  'C06': 'every comparison is between two artefacts of libyaml (a compiled system .so behind a Cython binding that cannot be rebuilt offline); symbolic values are realised at the extension boundary, so no solver variable survives into the code under comparison',
  'C20': 'asymptotic growth over input sizes: bounded symbolic execution cannot observe doubling and an unbounded cost argument is proof-assistant work; the anchored look-ahead mechanisms are decided as one-step invariants under C09/C18',
